@@ -413,6 +413,9 @@ func runHandshake(r *h.Run, prop string) {
 		if !o2.Hung && o2.Err == nil {
 			r.Violate("accepted-bad-line", fmt.Sprintf("reference=%q second-start", rd.why), fmt.Sprintf("the first Start refused line %q (%v); the second Start on the same client succeeded", firstLine(actual), o.Err))
 		}
+		if p := cl.Protocol(); p != plugin.ProtocolInvalid && !rd.ok && (o2.Hung || o2.Err != nil) {
+			r.Violate("accepted-bad-line", fmt.Sprintf("reference=%q protocol-after-refusal", rd.why), fmt.Sprintf("Start refused line %q but the client reports protocol %q", firstLine(actual), p))
+		}
 		if rc := cl.ReattachConfig(); rc != nil && !rd.ok {
 			r.Violate("accepted-bad-line", fmt.Sprintf("reference=%q reattach-config", rd.why), fmt.Sprintf("Start refused line %q but the client hands out a ReattachConfig (%v)", firstLine(actual), rc.Addr))
 		}
